@@ -99,7 +99,8 @@ def shard_real(ctx, k, payload):
     n, seed = payload
 
     def body(data):
-        p = data.draw(scenario.personas())
+        fs = data.draw(st.sampled_from([None, None, None, None, ['1040', 'nc_d-400'], ['w-2:0', 'w-2:1'], ['1040', '1099-int:0', '1099-int:1'], ['nc_d-400']]))
+        p = data.draw(scenario.personas(forms=fs)) if fs else data.draw(scenario.personas())
         sc, r0 = scenario.build(p, data.draw)
         for e in p['excluded']:
             ctx.count('excluded_by_construction:' + e[:60])
@@ -115,7 +116,8 @@ def shard_real(ctx, k, payload):
         ctx.count('variant:' + v['kind'])
         if labels & NT:
             ctx.nt({'y': v['year'], 'f': v['forms'], 'i': v['inputs'], 'p': v['prompt']})
-        if data.draw(st.integers(0, 7)) == 0:
+        if data.draw(st.integers(0, 7)) == 0 or (len(v['forms']) >= 2 and r.exc is None and not r.verdict and data.draw(st.booleans())):
+            # several requested forms of which a later one fails: the command line must still say so
             cli_text_check(ctx, v, r)
         if len(ctx.samples) < 5 and labels & NT and r.exc is None:
             ctx.sample({'year': v['year'], 'forms': v['forms'], 'variant': v['kind'], 'n_inputs': len(v['inputs']),
@@ -124,8 +126,39 @@ def shard_real(ctx, k, payload):
     hyp.run_data(body, n, seed)
 
 
+def shard_cli_multiform(ctx, k, payload):
+    """several requested forms of which exactly one cannot be completed (one of its inputs is removed), in every
+    position of the request: the command line says failed and names the input, as the direct solve does"""
+    n, seed = payload
+
+    def body(data):
+        fs = data.draw(st.sampled_from([['w-2:0', 'w-2:1'], ['w-2:1', 'w-2:0'], ['1099-int:0', '1099-int:1'], ['1098:0', 'w-2:0', '1099-div:0'],
+                                        ['1040', 'nc_d-400'], ['nc_d-400', '1040']]))
+        p = data.draw(scenario.personas(forms=fs))
+        sc, r0 = scenario.build(p, data.draw)
+        if r0.exc is not None or not r0.verdict:
+            ctx.count('cli_multiform:base_not_solved')
+            return
+        broken = data.draw(st.sampled_from(fs))
+        keys = sorted(k_ for k_ in sc['inputs'] if k_.split('.')[0] == broken
+                      and any(kind == 'i' and key == k_ for _, reads, _ in r0.trace.attempts for kind, key, o, _v in reads))
+        if not keys:
+            return
+        gone = data.draw(st.sampled_from(keys))
+        v = {'kind': 'delete_one', 'year': sc['year'], 'forms': fs, 'inputs': {k_: t for k_, t in sc['inputs'].items() if k_ != gone},
+             'prompt': None, 'schedule': None, 'deleted': gone}
+        r = realcamp.run_variant(v)
+        ctx.case()
+        ctx.count('cli_multiform:broken_position_' + str(fs.index(broken)))
+        if r.exc is None and not r.verdict:
+            ctx.nt({'f': fs, 'g': gone, 'i': v['inputs']})
+        cli_text_check(ctx, v, r)
+    hyp.run_data(body, n, seed)
+
+
 def run(ctx):
     quick = ctx.tier == 'quick'
+    hyp.pmap(ctx, shard_cli_multiform, [((64 if quick else 1600) // 4, ctx.seed * 1000 + 900 + k) for k in range(4)])
     campaign.campaign(ctx, ['C01'], 1500 if quick else 20000, bad_refs_share=0.25, scheduled=False, rule='c01')
     n = 300 if quick else 5000
     shards = 6 if quick else 16
